@@ -188,13 +188,18 @@ Definition copy_ops (chunks : list bool) : list wop :=
 Definition file_ops (f : fileprog) : list wop :=
   (if fp_declared f then [] else [OSrc (fp_sniff_ok f) Abort]) ++ [OWrite Abort] ++ copy_ops (fp_chunks f) ++ [OEndCopy].
 
-(* the three repairs, switchable so that each can be shown necessary *)
+(* the four repairs, and one ordering the code relies on, switchable so that each can be shown necessary *)
 Record fixes := mkfx {
   fx_defer_first : bool;          (* F-C12-2: the file-closing defer is registered before the form-field loop *)
   fx_close_on_late_error : bool;  (* F-C12-1: every error return after the goroutine started closes the pipe reader *)
-  fx_close_on_param_error : bool  (* F-C12-4: a failing parameter writer does not leave handed-over files open *)
+  fx_close_on_param_error : bool; (* F-C12-4: a failing parameter writer does not leave handed-over files open *)
+  fx_resp_close_first : bool;     (* Submit registers the deferred Close of the response body as soon as the response
+                                     is there, before the Debug dump of the response (which can fail and return) *)
+  fx_resp_close_held : bool       (* F-C12-5: the deferred function closes the body the response holds when Submit
+                                     returns (the copy the Debug dump has put in its place, when it went through),
+                                     not the body it held when the defer statement was executed *)
 }.
-Definition all_fixed : fixes := mkfx true true true.
+Definition all_fixed : fixes := mkfx true true true true true.
 
 Definition compile (fx : fixes) (nvalues : nat) (files : list fileprog) : list wop :=
   (if fx_defer_first fx then [ODefer] else []) ++
@@ -205,7 +210,18 @@ Definition compile (fx : fixes) (nvalues : nat) (files : list fileprog) : list w
 
 (* ---- the scenario: where the faults are ---- *)
 Inductive auth_b := ANone | AOk (asks_body : bool) | AFail (asks_body : bool).
-Inductive resp_b := RespRead | RespNoConsumer | RespReaderFails.
+(* the response: its Content-Type (one with a consumer / one nobody consumes / application/octet-stream, which
+   has a consumer but whose body a Debug dump leaves out), whether the response reader itself refuses, and
+   whether the body fails while it is read (connection reset, truncated before the announced length, stalled
+   until the deadline): within the part the response reader reads, or beyond it *)
+Inductive ctype_b := CtConsumed | CtUnknown | CtBinary.
+Inductive rfault := RFNone | RFEarly | RFLate.
+Record resp_b := mkrb { rb_ctype : ctype_b; rb_reader_fails : bool; rb_fault : rfault }.
+Definition printable (c : ctype_b) : bool := match c with CtBinary => false | _ => true end.
+Definition faulty (f : rfault) : bool := match f with RFNone => false | _ => true end.
+Definition RespRead : resp_b := mkrb CtConsumed false RFNone.
+Definition RespNoConsumer : resp_b := mkrb CtUnknown false RFNone.
+Definition RespReaderFails : resp_b := mkrb CtConsumed true RFNone.
 Inductive transport_b :=
 | TFail (reads : nat)                               (* reads that many writes of the body, then fails *)
 | TRespond (reads : option nat) (r : resp_b).       (* reads that many (None: to the end), then a response arrives *)
@@ -214,7 +230,8 @@ Record scenario := mksc {
   sc_param_err : bool;            (* the parameter writer fails (after handing over the files) *)
   sc_auth : auth_b;
   sc_late_err : bool;             (* url.Parse / NewRequest / SetQueryParam fails *)
-  sc_transport : transport_b
+  sc_transport : transport_b;
+  sc_debug : bool                 (* Runtime.Debug: Submit dumps the outgoing request and the response *)
 }.
 
 Inductive result := ROk | RFail.
@@ -244,9 +261,61 @@ Definition transport_reads (reads : option nat) (w : wst) : pres * wst :=
   | Some k => pull_n k w
   end.
 
-Definition respond (started : bool) (w : wst) (saw : bool) (r : resp_b) : cst :=
-  (* defer res.Body.Close() covers every path after a response was obtained *)
-  mkc started w false 0 saw 1 1 (match r with RespRead => ROk | _ => RFail end).
+(* Submit once a response was obtained (runtime.go: the deferred Close of the response body, the Debug dump,
+   consumer lookup, the response reader). c_resp_closes counts the Close calls on the body the transport handed out.
+   With Debug on and a printable Content-Type httputil.DumpResponse reads the whole body:
+   - the body fails: the dump fails leaving the body in place, Submit returns that error; only a Close deferred
+     BEFORE the dump runs, and it closes the transport's body (whichever body it is bound to: it is still the one
+     the response holds);
+   - else the dump closes the body it has copied and leaves a copy in its place. A function deferred before the
+     dump that closes the body the response holds when Submit returns (the repair of F-C12-5) closes that copy:
+     the transport's body was closed once, by the dump. A Close bound to the original body when the defer statement
+     was executed (the code before the repair) closes the transport's body a second time. A Close deferred after
+     the dump closes the copy, whichever way it is written. *)
+Definition resp_closes_of (fx : fixes) (debug : bool) (r : resp_b) : nat :=
+  let dumped := debug && printable (rb_ctype r) in
+  if dumped && faulty (rb_fault r) then (if fx_resp_close_first fx then 1 else 0)
+  else if dumped && fx_resp_close_first fx && negb (fx_resp_close_held fx) then 2 else 1.
+Definition resp_result (debug : bool) (r : resp_b) : result :=
+  let dumped := debug && printable (rb_ctype r) in
+  if dumped && faulty (rb_fault r) then RFail
+  else match rb_ctype r with
+       | CtUnknown => RFail                                 (* no consumer for the type *)
+       | _ => if (negb dumped && match rb_fault r with RFEarly => true | _ => false end) || rb_reader_fails r
+              then RFail else ROk                           (* the reader meets the fault, or refuses *)
+       end.
+Definition respond (fx : fixes) (debug : bool) (started : bool) (w : wst) (saw : bool) (r : resp_b) : cst :=
+  mkc started w false 0 saw 1 (resp_closes_of fx debug r) (resp_result debug r).
+
+(* Submit after the request was built: w is the goroutine, ro says whether the body is still the pipe.
+   Debug: httputil.DumpRequestOut reads the request body to its end into memory and closes it; when the body
+   fails it returns the error and Submit returns it at once (nobody closes the pipe's read end then, but the
+   goroutine has returned: the write end was closed with the error). *)
+Definition submit (fx : fixes) (sc : scenario) (w : wst) (ro : bool) : cst :=
+  let dump := sc_debug sc && ro in
+  let '(r0, wd) := if dump then read_to_end w else (PData, w) in
+  match r0 with
+  | PErr => mkc true wd ro 0 true 0 0 RFail
+  | _ =>
+    let wd' := if dump then close_reader wd else wd in
+    if negb ro || dump then
+      (* the body is a buffer now; the pipe is finished *)
+      match sc_transport sc with
+      | TFail _ => mkc true wd' false 0 false 0 0 RFail
+      | TRespond _ r => respond fx (sc_debug sc) true wd' false r
+      end
+    else
+      match sc_transport sc with
+      | TFail k => let '(r2, w2) := pull_n k wd' in
+                   mkc true (close_reader w2) false 0 (match r2 with PErr => true | _ => false end) 0 0 RFail
+      | TRespond reads r =>
+        let '(r2, w2) := transport_reads reads wd' in
+        match r2 with
+        | PErr => mkc true (close_reader w2) false 0 true 0 0 RFail   (* the body failed: RoundTrip fails *)
+        | _ => respond fx (sc_debug sc) true (close_reader w2) false r
+        end
+      end
+  end.
 
 Definition call (fx : fixes) (prog : list wop) (sc : scenario) : cst :=
   if sc_param_err sc then
@@ -264,37 +333,52 @@ Definition call (fx : fixes) (prog : list wop) (sc : scenario) : cst :=
     | AFail _ => fail_late fx true w1' ro1 false
     | _ =>
       if sc_late_err sc then fail_late fx true w1' ro1 false
-      else if negb ro1 then
-        (* the body is the buffer now; the pipe is finished *)
-        match sc_transport sc with
-        | TFail _ => mkc true w1' false 0 false 0 0 RFail
-        | TRespond _ r => respond true w1' false r
-        end
-      else
-        match sc_transport sc with
-        | TFail k => let '(r2, w2) := pull_n k w1' in
-                     mkc true (close_reader w2) false 0 (match r2 with PErr => true | _ => false end) 0 0 RFail
-        | TRespond reads r =>
-          let '(r2, w2) := transport_reads reads w1' in
-          match r2 with
-          | PErr => mkc true (close_reader w2) false 0 true 0 0 RFail   (* the body failed: RoundTrip fails *)
-          | _ => respond true (close_reader w2) false r
-          end
-        end
+      else submit fx sc w1' ro1
     end.
 
-(* what leak-freedom demands of a state in which the call has returned *)
-Definition released (c : cst) : bool :=
-  (if c_started c
-   then w_done (c_w c) && negb (c_reader_open c) && Nat.eqb (w_file_closes (c_w c) + c_builder_closes c) 1
-   else Nat.eqb (c_builder_closes c) 1) &&
-  Nat.eqb (c_resp_closes c) (c_resp_opened c).
+(* what leak-freedom demands of a state in which the call has returned: the goroutine has returned and the
+   files were closed exactly once (by its deferred function, or by the builder when it was never started); a
+   response body that was obtained has been closed. (The pipe's read end holds nothing once the goroutine
+   has returned; it is closed on every path but one: see reader_closed.) *)
+Definition upload_released (c : cst) : bool :=
+  if c_started c
+  then w_done (c_w c) && Nat.eqb (w_file_closes (c_w c) + c_builder_closes c) 1
+  else Nat.eqb (c_builder_closes c) 1.
+Definition resp_closed (c : cst) : bool :=
+  if Nat.eqb (c_resp_opened c) 0 then Nat.eqb (c_resp_closes c) 0 else 1 <=? c_resp_closes c.
+Definition resp_closed_once (c : cst) : bool := Nat.eqb (c_resp_closes c) (c_resp_opened c).
+Definition released (c : cst) : bool := upload_released c && resp_closed c.
+(* the stronger reading asked of the code by the correspondence run: exactly one Close per response body *)
+Definition released_once (c : cst) : bool := upload_released c && resp_closed_once c.
+(* the one path on which the code before the repair of F-C12-5 closed a response body twice *)
+Definition dump_closes_twice (sc : scenario) : bool :=
+  sc_debug sc && match sc_transport sc with
+                 | TRespond _ r => printable (rb_ctype r) && negb (faulty (rb_fault r))
+                 | TFail _ => false
+                 end.
 
 (* ====================== (iii) the effective deadline ====================== *)
-(* parent: the deadline of the caller's context, if any; timeout 0 = none (times in any unit, as Z) *)
+(* parent: the deadline of the caller's context, if any; timeout 0 = none (times in any unit, as Z).
+   Every other value counts, a negative one too: context.WithTimeout(parent, d) with d <= 0 yields a context
+   that has already expired - the request fails at once instead of waiting without bound. *)
 Definition effective_deadline (parent : option Z) (now timeout : Z) : option Z :=
   if (timeout =? 0)%Z then parent
   else match parent with
        | None => Some (now + timeout)%Z
        | Some p => Some (Z.min p (now + timeout))
        end.
+
+(* a wrong reading: every timeout <= 0 taken for no timeout *)
+Definition effective_deadline_nonpositive_as_none (parent : option Z) (now timeout : Z) : option Z :=
+  if (timeout <=? 0)%Z then parent
+  else match parent with
+       | None => Some (now + timeout)%Z
+       | Some p => Some (Z.min p (now + timeout))
+       end.
+
+(* the latest moment a call may return: the effective deadline, but not before the call began *)
+Definition must_return_by (parent : option Z) (now timeout : Z) : option Z :=
+  match effective_deadline parent now timeout with
+  | Some d => Some (Z.max now d)
+  | None => None
+  end.
